@@ -70,7 +70,12 @@ def run(ctx):
     for i, b in enumerate(forms["widths"]):
         attrs.append("  w%d : STRING(%s);" % (i, b))
         attrs.append("  x%d : BINARY(%s) FIXED;" % (i, b))
-    bounds_body = ("FUNCTION fb(p : INTEGER) : INTEGER; RETURN (p); END_FUNCTION;\nENTITY withbounds;\n" + "\n".join(attrs) + "\nEND_ENTITY;\n"
+    # text that is carried into the generated files verbatim: string literals must be copied, never interpreted
+    # (conversion specifications of C format strings, back-slashes, quotes)
+    texts = ["item %d of %d", "%s and %s", "100%", "%5.2f %x %c %p", "back\\\\slash \\\\n", "%%"]
+    bounds_body = ("FUNCTION fb(p : INTEGER) : INTEGER; RETURN (p); END_FUNCTION;\nENTITY withbounds;\n" + "\n".join(attrs)
+                   + "\n  lbl : STRING;\nDERIVE\n" + "\n".join("  dt%d : STRING := '%s';" % (i, t) for i, t in enumerate(texts))
+                   + "\nWHERE\n" + "\n".join("  wt%d : lbl <> '%s';" % (i, t) for i, t in enumerate(texts)) + "\nEND_ENTITY;\n"
                    + "".join("TYPE tb%d = LIST [1:%s] OF LIST [%s:5] OF INTEGER;\nEND_TYPE;\n" % (i, b, forms["lowers"][i % len(forms["lowers"])])
                              for i, b in enumerate(forms["bounds"]) if b != "?" and "cntb" not in b and "lst" not in b))
     cases, g2 = fc.gen(ctx, with_mutants=False)
@@ -137,7 +142,15 @@ def run(ctx):
     with cf.ThreadPoolExecutor(max_workers=12) as ex:
         for name, tname, k, c, rc, dig, foreign in ex.map(one, jobs):
             if rc != 0:
-                raise InfraError("%s failed (rc %s) on the valid input %s - the harness' input is wrong" % (tname, rc, name))
+                # is the input at fault (harness error) or the tool?  The checker decides.
+                chk = os.path.join(wd, "chk_%s.exp" % name)
+                open(chk, "w").write(dict(inputs)[name])
+                pc = subprocess.run([os.path.join(bdir, "bin", "check-express"), chk], stdout=subprocess.PIPE, stderr=subprocess.PIPE, text=True, timeout=120)
+                if pc.returncode != 0:
+                    raise InfraError("input %s is rejected by check-express - the harness' input is wrong: %s" % (name, pc.stderr[:300]))
+                ctx.violation("tool-failed|%s|%s" % (tname, name), "%s exits with status %s on the accepted input %s under %s" % (tname, rc, name, json.dumps(c)),
+                              {"input": dict(inputs)[name], "cfg": c})
+                continue
             lines.append(json.dumps({"e": "Run", "tool": tname, "input": name, "cfg": c, "out": "%s/rc%d" % (dig, rc), "foreign": bool(foreign),
                                      "why": "; ".join(foreign)[:200]}))
             metas.append((name, tname, c))
